@@ -270,6 +270,7 @@ def _plan(tier):
     P.append(("hamiltonian", dict(which="reversible", n=1, nsteps=1, apply_constraints=True), ("done",)))
     P.append(("hamiltonian", dict(which="reference", n=1, nsteps=2, apply_constraints=True, reassign=False), ("done",)))
     P.append(("hamiltonian", dict(which="refresh", n=1, forced=False), ("done",)))
+    P.append(("hamiltonian", dict(which="refresh", n=2, forced=False, pbc=True), ("done",)))
     if tier != "quick":
         P.append(("proposal", dict(which="deformation", op="Anisotropic", masked=False), ("done",)))
         P.append(("proposal", dict(which="deformation", op="Shape", masked=False), ("done",)))
